@@ -540,6 +540,43 @@ func BuildBase(name string, cfg Config, seed uint32) (*Base, error) {
 			}
 		}
 		return b, nil
+	case "LG15":
+		// ROLL1 (one record per segment): fifteen segments with LEGACY file names 00001.psg .. 00015.psg (no sequence id:
+		// all replay with sequence id 0, in id order) each holding a newer value of the hot key a (b, d in between), and
+		// segment id 0 free: the next rollover creates the modern segment 00000-1.psg in FRONT of them in id order.
+		bb.key("a", 0x11110000)
+		bb.key("b", 0x22220001)
+		bb.key("c", 0x11110000)
+		bb.key("d", 0x33330002)
+		bb.key("e", 0x44440003)
+		bb.key("n", 0x55550004)
+		for i := 0; i < 16; i++ {
+			switch i {
+			case 5:
+				bb.put("b")
+			case 9:
+				bb.put("d")
+			default:
+				bb.put("a")
+			}
+		}
+		b, err := bb.finish([]string{"a", "b", "c", "d", "e", "n"}, nil)
+		if err != nil {
+			return nil, err
+		}
+		for _, ext := range []string{"", ".pmt"} {
+			b.Image.Delete(DBPath + "/00000-1.psg" + ext) // a's oldest value, superseded
+			for id := 1; id < 16; id++ {
+				from := fmt.Sprintf("%s/%05d-%d.psg%s", DBPath, id, id+1, ext)
+				if !b.Image.Exists(from) {
+					return nil, fmt.Errorf("base LG15: expected file %s", from)
+				}
+				if err := b.Image.Rename(from, fmt.Sprintf("%s/%05d.psg%s", DBPath, id, ext)); err != nil {
+					return nil, err
+				}
+			}
+		}
+		return b, nil
 	case "SM":
 		// ROLLM (= ROLL with a minimum segment size for compaction of header+60): a full segment of three
 		// puts (578 bytes), a sealed SMALL segment [put a, del d, del e] (570 bytes, below the minimum) and a
